@@ -1,11 +1,17 @@
 import NA.Model.DeleteUnused
+/-!
+Lemmas for C07 (Cisco clean-up): the deletion rounds, and the closure `still` — every entry
+reachable from a command "not created by Netspoc" through not-needed commands is protected.
+-/
 namespace NA.DelUnused
 
-theorem mem_insertSorted (x y : Nat) (l : List Nat) : y ∈ insertSorted x l ↔ y = x ∨ y ∈ l := by
+/-! ### sorting keeps the elements -/
+
+theorem mem_insertItem (x y : Item) (l : List Item) : y ∈ insertItem x l ↔ y = x ∨ y ∈ l := by
   induction l with
-  | nil => simp [insertSorted]
+  | nil => simp [insertItem]
   | cons z zs ih =>
-    simp only [insertSorted]
+    simp only [insertItem]
     split
     · simp
     · simp only [List.mem_cons, ih]
@@ -13,26 +19,36 @@ theorem mem_insertSorted (x y : Nat) (l : List Nat) : y ∈ insertSorted x l ↔
       · rintro (h | h | h) <;> simp [h]
       · rintro (h | h | h) <;> simp [h]
 
-theorem mem_sortIds (y : Nat) (l : List Nat) : y ∈ sortIds l ↔ y ∈ l := by
+theorem mem_sortItems (y : Item) (l : List Item) : y ∈ sortItems l ↔ y ∈ l := by
   induction l with
-  | nil => simp [sortIds]
+  | nil => simp [sortItems]
   | cons z zs ih =>
-    have : sortIds (z :: zs) = insertSorted z (sortIds zs) := rfl
-    rw [this, mem_insertSorted, ih]; simp
+    have : sortItems (z :: zs) = insertItem z (sortItems zs) := rfl
+    rw [this, mem_insertItem, ih]; simp
 
-/-- Everything a run of the loop deletes comes from the start set, and when it is deleted no
-object still waiting in the set references it. -/
-theorem rounds_sound (n : Nat) (d : List Obj) (rs : List (List Nat)) (h : rounds n d = some rs) :
-    (∀ r ∈ rs, ∀ x ∈ r, ∃ o ∈ d, o.id = x) ∧
-    (∀ r ∈ rs, ∀ x ∈ r, ∀ o ∈ d, x ∈ o.refs → ∃ r' ∈ rs, o.id ∈ r') := by
+/-! ### the rounds -/
+
+/-- What a terminating run of the loop does: (1) only entries of the start set are deleted, (2) every
+entry of the start set is deleted, (3) when an entry is deleted, nothing deleted in the same or a
+later round references it. -/
+theorem rounds_sound (n : Nat) (d : List Item) (rs : List (List Item)) (h : rounds n d = some rs) :
+    (∀ r ∈ rs, ∀ x ∈ r, x ∈ d) ∧
+    (∀ x ∈ d, ∃ r ∈ rs, x ∈ r) ∧
+    (∀ pre r post, rs = pre ++ r :: post → ∀ x ∈ r, ∀ y ∈ (r :: post).flatten, x.id ∉ y.refs) := by
   induction n generalizing d rs with
   | zero =>
     cases d with
-    | nil => simp [rounds] at h; subst h; simp
+    | nil =>
+      simp [rounds] at h; subst h
+      refine ⟨by simp, by simp, ?_⟩
+      intro pre r post hp; cases pre <;> simp at hp
     | cons o d => simp [rounds] at h
   | succ n ih =>
     cases d with
-    | nil => simp [rounds] at h; subst h; simp
+    | nil =>
+      simp [rounds] at h; subst h
+      refine ⟨by simp, by simp, ?_⟩
+      intro pre r post hp; cases pre <;> simp at hp
     | cons o0 d0 =>
       simp only [rounds] at h
       split at h
@@ -40,37 +56,190 @@ theorem rounds_sound (n : Nat) (d : List Obj) (rs : List (List Nat)) (h : rounds
       · rename_i hne
         simp only [Option.map_eq_some_iff] at h
         obtain ⟨rest, hrest, rfl⟩ := h
-        obtain ⟨ih1, ih2⟩ := ih _ _ hrest
-        constructor
+        obtain ⟨ih1, ih2, ih3⟩ := ih _ _ hrest
+        have hnow : ∀ x, x ∈ sortItems ((o0 :: d0).filter fun it => !((o0 :: d0).flatMap Item.refs).contains it.id) →
+            x ∈ (o0 :: d0) ∧ x.id ∉ (o0 :: d0).flatMap Item.refs := by
+          intro x hx
+          rw [mem_sortItems, List.mem_filter] at hx
+          exact ⟨hx.1, by simpa using hx.2⟩
+        refine ⟨?_, ?_, ?_⟩
         · intro r hr x hx
           simp only [List.mem_cons] at hr
           rcases hr with rfl | hr
-          · rw [mem_sortIds] at hx
-            simp only [List.mem_map, List.mem_filter] at hx
-            obtain ⟨o, ⟨ho, _⟩, rfl⟩ := hx
-            exact ⟨o, ho, rfl⟩
-          · obtain ⟨o, ho, hid⟩ := ih1 r hr x hx
-            exact ⟨o, (List.mem_filter.mp ho).1, hid⟩
-        · intro r hr x hx o ho hxo
-          simp only [List.mem_cons] at hr
-          rcases hr with rfl | hr
-          · -- x is deleted in this round: nobody in the set references it
-            rw [mem_sortIds] at hx
-            simp only [List.mem_map, List.mem_filter] at hx
-            obtain ⟨ox, ⟨_, hnr⟩, rfl⟩ := hx
-            exfalso
-            have : ((o0 :: d0).flatMap (·.refs)).contains ox.id = true := by
-              simp only [List.contains_eq_mem, List.mem_flatMap, decide_eq_true_eq]
-              exact ⟨o, ho, hxo⟩
-            rw [this] at hnr
-            exact absurd hnr (by decide)
-          · -- x is deleted later; o either goes now or stays in the set
-            by_cases hro : ((o0 :: d0).flatMap (·.refs)).contains o.id = true
-            · obtain ⟨r', hr', hor'⟩ := ih2 r hr x hx o (List.mem_filter.mpr ⟨ho, hro⟩) hxo
-              exact ⟨r', List.mem_cons_of_mem _ hr', hor'⟩
-            · refine ⟨_, List.mem_cons_self, ?_⟩
-              rw [mem_sortIds]
-              simp only [List.mem_map, List.mem_filter]
-              exact ⟨o, ⟨ho, by simpa using hro⟩, rfl⟩
+          · exact (hnow x hx).1
+          · exact (List.mem_filter.mp (ih1 r hr x hx)).1
+        · intro x hx
+          by_cases hro : ((o0 :: d0).flatMap Item.refs).contains x.id = true
+          · obtain ⟨r, hr, hxr⟩ := ih2 x (List.mem_filter.mpr ⟨hx, hro⟩)
+            exact ⟨r, List.mem_cons_of_mem _ hr, hxr⟩
+          · refine ⟨_, List.mem_cons_self, ?_⟩
+            rw [mem_sortItems, List.mem_filter]
+            exact ⟨hx, by simpa using hro⟩
+        · intro pre r post hp x hx y hy
+          cases pre with
+          | nil =>
+            simp only [List.nil_append, List.cons.injEq] at hp
+            obtain ⟨rfl, rfl⟩ := hp
+            have hyd : y ∈ (o0 :: d0) := by
+              simp only [List.flatten_cons, List.mem_append, List.mem_flatten] at hy
+              rcases hy with hy | ⟨r', hr', hy⟩
+              · exact (hnow y hy).1
+              · exact (List.mem_filter.mp (ih1 r' hr' y hy)).1
+            intro hxy
+            exact (hnow x hx).2 (List.mem_flatMap.mpr ⟨y, hyd, hxy⟩)
+          | cons p pre' =>
+            simp only [List.cons_append, List.cons.injEq] at hp
+            exact ih3 pre' r post hp.2 x hx y hy
+
+/-! ### the start set -/
+
+theorem mem_items0 (w : World) (it : Item) (h : it ∈ items0 w) :
+    ∃ o ∈ w, it.id = o.id ∧ it.tagged = o.tagged ∧ it.clear = o.clear ∧
+      it.del = (o.cmds.zipIdx.filter fun p => isDel o p.1) ∧ it.del ≠ [] ∧ o.id ∉ still w := by
+  simp only [items0, List.mem_filterMap] at h
+  obtain ⟨o, ho, hit⟩ := h
+  split at hit
+  · simp at hit
+  · rename_i hc
+    simp only [Option.some.injEq] at hit
+    subst hit
+    simp only [Bool.or_eq_true, List.isEmpty_iff, List.contains_eq_mem, decide_eq_true_eq, not_or] at hc
+    exact ⟨o, ho, rfl, rfl, rfl, rfl, hc.1, hc.2⟩
+
+/-! ### the closure `still` -/
+
+/-- The entry has a command that is not needed. -/
+def Live (w : World) (r : Nat) : Prop := ∃ t, find w r = some t ∧ t.live.isEmpty = false
+
+/-- A not-needed command of entry `i` references entry `r` (directly or in a not-needed sub-command). -/
+def Edge (w : World) (i r : Nat) : Prop := ∃ o c, find w i = some o ∧ c ∈ o.live ∧ r ∈ c.followRefs
+
+/-- `Walk w r x l`: `l` lists the entries of a reference walk from `r` to `x`, all of them live. -/
+inductive Walk (w : World) : Nat → Nat → List Nat → Prop
+  | single {r : Nat} : Live w r → Walk w r r [r]
+  | cons {r s x : Nat} {l : List Nat} : Live w r → Edge w r s → Walk w s x l → Walk w r x (r :: l)
+
+theorem Walk.head {w : World} {r x : Nat} {l : List Nat} (h : Walk w r x l) : ∃ t, l = r :: t := by
+  cases h with
+  | single _ => exact ⟨[], rfl⟩
+  | cons _ _ _ => exact ⟨_, rfl⟩
+
+theorem followFrom_head (w : World) (n : Nat) (refs : List Nat) (r : Nat) (hr : r ∈ refs) (hl : Live w r) :
+    r ∈ followFrom w (n + 1) refs := by
+  obtain ⟨t, ht, hlive⟩ := hl
+  simp only [followFrom, List.mem_flatMap]
+  exact ⟨r, hr, by simp [ht, hlive]⟩
+
+theorem followFrom_step (w : World) (n : Nat) (refs : List Nat) (r x : Nat) (t : Obj) (hr : r ∈ refs)
+    (ht : find w r = some t) (hlive : t.live.isEmpty = false)
+    (hx : x ∈ followFrom w n (t.live.flatMap Cmd.followRefs)) : x ∈ followFrom w (n + 1) refs := by
+  simp only [followFrom, List.mem_flatMap]
+  exact ⟨r, hr, by simp [ht, hlive, hx]⟩
+
+/-- A walk of at most `n` entries that starts at one of `refs` ends inside `followFrom w n refs`. -/
+theorem walk_reaches {w : World} {r x : Nat} {l : List Nat} (h : Walk w r x l) :
+    ∀ (refs : List Nat) (n : Nat), r ∈ refs → l.length ≤ n → x ∈ followFrom w n refs := by
+  induction h with
+  | single hl =>
+    intro refs n hr hn
+    cases n with
+    | zero => simp at hn
+    | succ n => exact followFrom_head w n refs _ hr hl
+  | cons hl he _ ih =>
+    intro refs n hr hn
+    cases n with
+    | zero => simp at hn
+    | succ n =>
+      obtain ⟨t, ht, hlive⟩ := hl
+      obtain ⟨o, c, ho, hc, hs⟩ := he
+      rw [ht] at ho
+      cases ho
+      have hs' : _ ∈ t.live.flatMap Cmd.followRefs := List.mem_flatMap.mpr ⟨c, hc, hs⟩
+      exact followFrom_step w n refs _ _ t hr ht hlive
+        (ih _ n hs' (by simp only [List.length_cons] at hn; omega))
+
+theorem walk_suffix_aux {w : World} {r x : Nat} {l : List Nat} (h : Walk w r x l) :
+    ∀ (a : List Nat) (s : Nat) (b : List Nat), l = a ++ s :: b → Walk w s x (s :: b) := by
+  induction h with
+  | single hl =>
+    intro a s b hab
+    cases a with
+    | nil => simp only [List.nil_append, List.cons.injEq] at hab; obtain ⟨rfl, rfl⟩ := hab; exact Walk.single hl
+    | cons a0 a => simp at hab
+  | @cons r s' x l hl he h' ih =>
+    intro a s b hab
+    cases a with
+    | nil =>
+      simp only [List.nil_append, List.cons.injEq] at hab
+      obtain ⟨rfl, rfl⟩ := hab
+      exact Walk.cons hl he h'
+    | cons a0 a =>
+      simp only [List.cons_append, List.cons.injEq] at hab
+      exact ih a s b hab.2
+
+theorem walk_suffix {w : World} {x : Nat} (a : List Nat) {r s : Nat} {b : List Nat}
+    (h : Walk w r x (a ++ s :: b)) : Walk w s x (s :: b) := walk_suffix_aux h a s b rfl
+
+theorem walk_mem_live {w : World} {r x : Nat} {l : List Nat} (h : Walk w r x l) : ∀ y ∈ l, Live w y := by
+  induction h with
+  | single hl => intro y hy; simp at hy; subst hy; exact hl
+  | cons hl _ _ ih =>
+    intro y hy
+    simp only [List.mem_cons] at hy
+    rcases hy with rfl | hy
+    · exact hl
+    · exact ih y hy
+
+/-- Cycles can be cut out of a walk. -/
+theorem walk_nodup {w : World} {r x : Nat} {l : List Nat} (h : Walk w r x l) :
+    ∃ l', Walk w r x l' ∧ l'.Nodup := by
+  induction h with
+  | single hl => exact ⟨_, Walk.single hl, by simp⟩
+  | @cons r s x l hl he _ ih =>
+    obtain ⟨q, hq, hnd⟩ := ih
+    by_cases hr : r ∈ q
+    · obtain ⟨a, b, rfl⟩ := List.append_of_mem hr
+      refine ⟨r :: b, walk_suffix a hq, ?_⟩
+      exact List.Nodup.sublist (List.sublist_append_right a (r :: b)) hnd
+    · exact ⟨r :: q, Walk.cons hl he hq, List.nodup_cons.mpr ⟨hr, hnd⟩⟩
+
+theorem nodup_length_le : ∀ (l m : List Nat), l.Nodup → (∀ y ∈ l, y ∈ m) → l.length ≤ m.length := by
+  intro l
+  induction l with
+  | nil => intro m _ _; simp
+  | cons a t ih =>
+    intro m hnd hsub
+    obtain ⟨hat, hnt⟩ := List.nodup_cons.mp hnd
+    have ham : a ∈ m := hsub a List.mem_cons_self
+    have h1 : t.length ≤ (m.erase a).length := by
+      apply ih _ hnt
+      intro y hy
+      have hya : y ≠ a := fun e => hat (e ▸ hy)
+      exact (List.mem_erase_of_ne hya).mpr (hsub y (List.mem_cons_of_mem _ hy))
+    rw [List.length_erase_of_mem ham] at h1
+    have : 0 < m.length := List.length_pos_of_mem ham
+    simp only [List.length_cons]; omega
+
+theorem live_mem_ids {w : World} {y : Nat} (h : Live w y) : y ∈ w.map (·.id) := by
+  obtain ⟨t, ht, _⟩ := h
+  have hm := List.mem_of_find?_eq_some ht
+  have hp := List.find?_some ht
+  simp only [beq_iff_eq] at hp
+  exact List.mem_map.mpr ⟨t, hm, hp⟩
+
+/-- The `|w|+1` levels the model follows are the whole closure: whatever a walk of any length
+reaches from a root is in `still w`. -/
+theorem still_of_walk {w : World} {r x : Nat} {l : List Nat} (hr : r ∈ roots w) (h : Walk w r x l) :
+    x ∈ still w := by
+  obtain ⟨q, hq, hnd⟩ := walk_nodup h
+  have hlen : q.length ≤ (w.map (·.id)).length :=
+    nodup_length_le q _ hnd fun y hy => live_mem_ids (walk_mem_live hq y hy)
+  simp only [List.length_map] at hlen
+  exact walk_reaches hq (roots w) (w.length + 1) hr (by omega)
+
+theorem mem_roots (w : World) (o : Obj) (c : Cmd) (r : Nat) (ho : o ∈ w) (hc : c ∈ o.cmds)
+    (hu : isUntouched o c = true) (hr : r ∈ c.followRefs) : r ∈ roots w := by
+  simp only [roots, List.mem_flatMap, List.mem_filter]
+  exact ⟨o, ho, c, ⟨hc, hu⟩, hr⟩
 
 end NA.DelUnused
